@@ -3,6 +3,7 @@
 From Coq Require Import List Arith Bool.
 Import ListNotations.
 Require Import ModModel ModBase ModUnbounded ModAllN ModProps.
+Require ModAnti.
 
 (* For ANY number of modules, any dependency graph g (wfg: dependencies name modules < n) and any listing order:
    - if start-up aborts (run = None) there is a genuine cycle among the reachable modules;
@@ -31,3 +32,34 @@ Theorem dependency_order_respected_up_to_4_modules :
   forall bs, In bs (bits 12) -> forall l, In l (listings 4) -> monitor 4 (graph_of 4 bs) l = true.
 Proof. exact every_graph_on_4_modules. Qed.
 Print Assumptions dependency_order_respected_up_to_4_modules.
+
+(* BACK-END DECLARATIONS (module_antidepends, README: "must be unloaded after it").  run2 fixed n g a listing extends the loader
+   model: a m lists the modules m declares itself a back end for; fixed = true is module.c as repaired (D26: the reverse link is
+   recorded), fixed = false the code as it was.  cdep g a m d: "m depends on d", declared by m (module_depends) or by d
+   (module_antidepends).  For ANY number of modules, any pair of graphs and any listing: start-up aborts exactly on a cycle of the
+   combined relation among the loaded modules; otherwise every loaded module is constructed, post-initialised and destroyed exactly
+   once, and along EVERY declared edge of either kind post-init of the dependency comes first and the dependent is destroyed first.
+   (Construction order is not claimed for the combined relation - and cannot be: construction_order_can_fail_with_back_ends.) *)
+Theorem back_end_declarations_are_respected : forall n g a listing, ModAnti.wfg2 n g a -> (forall m, In m listing -> m < n) ->
+  ModAnti.monitor2' g a listing (ModAnti.run2 true n g a listing).
+Proof. exact ModAnti.run2_meets_monitor2. Qed.
+Print Assumptions back_end_declarations_are_respected.
+
+Theorem start_up_aborts_exactly_on_a_combined_cycle : forall n g a listing, ModAnti.wfg2 n g a -> (forall m, In m listing -> m < n) ->
+  (ModAnti.run2 true n g a listing = None <-> ModAnti.cyclic2 g a listing).
+Proof. exact ModAnti.run2_aborts_iff_cycle. Qed.
+Print Assumptions start_up_aborts_exactly_on_a_combined_cycle.
+
+(* without back-end declarations the extended model IS the model above *)
+Theorem extended_model_is_conservative : forall fixed n g listing, ModAnti.run2 fixed n g (fun _ => []) listing = run n g listing.
+Proof. exact ModAnti.run2_no_anti. Qed.
+Print Assumptions extended_model_is_conservative.
+
+(* D26 refuted on the model of the code as it was: a back end destroyed before the module it provides for (the daemon's own event
+   order on m0 -> m2, m1 back end for m2, modules (m0, m1)) *)
+Theorem unrepaired_code_destroys_a_back_end_first : exists n g a listing lg,
+  ModAnti.wfg2 n g a /\ (forall m, In m listing -> m < n) /\ ModAnti.run2 false n g a listing = Some lg /\
+  exists b x, In x (a b) /\ precedes (DT b) (DT x) lg /\ count (isDT b) lg = 1 /\ count (isDT x) lg = 1 /\
+              before (index (isDT b) lg 0) (index (isDT x) lg 0) = true.
+Proof. exact ModAnti.unfixed_destroys_back_end_first. Qed.
+Print Assumptions unrepaired_code_destroys_a_back_end_first.
